@@ -176,6 +176,21 @@ pub fn read(ctx: &Ctx, op: &Op) -> (String, i64, Value) {
                 .unwrap_or((0, String::new()));
                 (h, json!({"has": false, "id": style.abs(&id)}))
             }
+            "Validate" => {
+                let total = store.validate_text(true);
+                let mut verdicts: Vec<String> = Vec::new();
+                for i in 0..store.annotations_len() {
+                    verdicts.push(match store.annotation(AnnotationHandle::new(i)) {
+                        None => String::new(),
+                        Some(ann) => match ann.validate_text() {
+                            Some(true) => "valid".into(),
+                            Some(false) => "invalid".into(),
+                            None => "missing".into(),
+                        },
+                    });
+                }
+                (0, json!({"ok": true, "valid": total.valid(), "invalid": total.invalid(), "missing": total.missing(), "verdicts": verdicts}))
+            }
             "TextSel" => {
                 let off = offset_of(&serde_json::from_value::<Off>(a["off"].clone()).unwrap());
                 let res = match container(store, &a["c"], style) {
@@ -402,4 +417,4 @@ pub fn read(ctx: &Ctx, op: &Op) -> (String, i64, Value) {
 
 pub const READ_EVENTS: &[&str] =
     &["Lookup", "TextSel", "AnnTextOf", "OffsetReport", "Utf8Byte", "ByteToChar", "TextOp", "TestRelation", "RelatedText",
-      "TestRelationRow", "RelatedRow"];
+      "TestRelationRow", "RelatedRow", "Validate"];
